@@ -608,6 +608,18 @@ func (in *inliner) sroaFunc(fd *ast.FuncDecl, file *ast.File) int {
 					return false
 				}
 				x.Lhs, x.Rhs = keepL, keepR
+				// `s, pos := a, b` with s split off: if nothing that remains is new, it is an assignment
+				if x.Tok == token.DEFINE {
+					anyNew := false
+					for _, l := range keepL {
+						if id, ok := l.(*ast.Ident); ok && id.Name != "_" && info.Defs[id] != nil {
+							anyNew = true
+						}
+					}
+					if !anyNew {
+						x.Tok = token.ASSIGN
+					}
+				}
 			}
 		}
 		return true
